@@ -32,7 +32,10 @@ vars == <<body, done>>
 Lit(src, val, rawval) == [k |-> "lit", src |-> src, val |-> val, rawval |-> rawval]
 LitItems == {Lit("a", "a", "a"), Lit(" ", " ", " "), Lit("<E9>", "<E9>", "<E9>"), Lit("{{", "{", "{"), Lit("}}", "}", "}"),
              Lit("\\n", "\n", "\\n"), Lit("\\101", "A", "\\101"), Lit("\\x41", "A", "\\x41"), Lit("\\\\", "\\", "\\\\"), Lit("\\N{BULLET}", "<2022>", "\\N{{BULLET}}"),
-             Lit(":", ":", ":"), Lit("!", "!", "!"), Lit("=", "=", "=")}
+             Lit(":", ":", ":"), Lit("!", "!", "!"), Lit("=", "=", "="),
+             \* line breaks inside the literal (triple-quoted forms only): every kind denotes LF
+             Lit("\n", "\n", "\n"), Lit("\r\n", "\n", "\n"), Lit("\r", "\n", "\n")}
+IsBreak(it) == it.k = "lit" /\ it.val = "\n" /\ it.src \in {"\n", "\r\n", "\r"}
 \* (the raw form of \N{BULLET} is not a field in a raw f-string only if the braces are doubled: it is excluded from raw forms below)
 
 \* field items: expression source, which quote character it contains, '=' form (with the blanks written before and
@@ -51,17 +54,21 @@ ExprItems ==
      Plain("(lambda x: x)", "-"), Plain("a if b else c", "-"), Plain("a, b", "-"), Plain("*a,", "-"), Plain("(yield)", "-"), Plain("not a", "-"), Plain("a or b", "-"),
      Plain("a.b", "-"), Plain(" a ", "-"), Plain("<E9>", "-"), Plain("a['k']", "SQ"), Plain("a[\"k\"]", "DQ"), Plain("'}'", "SQ"), Plain("'{'", "SQ"), Plain("\":\"", "DQ"),
      Plain("'!'", "SQ"), Plain("'='", "SQ"), Plain("f'{b}'", "SQ"), Plain("f\"{b!r:>{w}}\"", "DQ"), Plain(" {'a': 1}['a']", "SQ"), Plain("a[b['c']]", "SQ"),
-     Plain("(a, (b, [c, {d}]))", "-"), Plain("f(x)[0].y", "-"), Plain("a!=b!=c", "-") }
+     Plain("(a, (b, [c, {d}]))", "-"), Plain("f(x)[0].y", "-"), Plain("a!=b!=c", "-"),
+     \* triple-quoted strings inside the expression (they may contain the other quote and single quotes of their own kind)
+     Plain("\"\"\"a\"b\"\"\"", "DQ3"), Plain("'''a'b'''", "SQ3"), Plain("\"\"\"}\"\"\"", "DQ3") }
 
 Specs == { FSpec("", <<>>), FSpec(">10", <<Txt(">10")>>), FSpec("{w}", <<Fld("w", "", NoSpec)>>), FSpec(">{w}.{p}", <<Txt(">"), Fld("w", "", NoSpec), Txt("."), Fld("p", "", NoSpec)>>),
            FSpec("{w!r}x", <<Fld("w", "r", NoSpec), Txt("x")>>), FSpec("\\n", <<Txt("\n")>>), FSpec("<E9>=", <<Txt("<E9>=")>>), FSpec(" ", <<Txt(" ")>>), FSpec("%Y-%m", <<Txt("%Y-%m")>>) }
 VaryItems ==
    { Field("a", "-", FALSE, "", "", c, s) : c \in {"", "s", "r", "a"}, s \in Specs \cup {NoSpec} } \cup
    { Field("a", "-", TRUE, pre, post, c, s) : pre \in {"", " "}, post \in {"", " "}, c \in {"", "s"}, s \in {NoSpec, FSpec(">10", <<Txt(">10")>>)} } \cup
-   { Field("a+b", "-", TRUE, "", "", "", NoSpec), Field("a['k']", "SQ", TRUE, " ", "", "", NoSpec) }
+   { Field("a+b", "-", TRUE, "", "", "", NoSpec), Field("a['k']", "SQ", TRUE, " ", "", "", NoSpec),
+     \* any ASCII blank may stand around '=' and is echoed
+     Field("a", "-", TRUE, "", "\t", "", NoSpec), Field("a", "-", TRUE, "\t", "  ", "", NoSpec), Field("a", "-", TRUE, " ", "\t ", "s", NoSpec) }
 
 ItemsAll == LitItems \cup ExprItems \cup VaryItems
-ItemsCore == {i \in LitItems : i.src \in {"a", "<E9>", "{{", "\\101", "\\n"}} \cup {i \in ExprItems : i.expr \in {"a", "a!=b", "a['k']", "f'{b}'", " {1: 2}[1]", "(a:=1)"}}
+ItemsCore == {i \in LitItems : i.src \in {"a", "<E9>", "{{", "\\101", "\\n", "\r\n"}} \cup {i \in ExprItems : i.expr \in {"a", "a!=b", "a['k']", "f'{b}'", " {1: 2}[1]", "(a:=1)"}}
              \cup { Field("a", "-", FALSE, "", "", "r", FSpec(">{w}.{p}", <<Txt(">"), Fld("w", "", NoSpec), Txt("."), Fld("p", "", NoSpec)>>)),
                     Field("a", "-", TRUE, " ", " ", "", NoSpec), Field("a", "-", FALSE, "", "", "", FSpec("\\n", <<Txt("\n")>>)) }
 
@@ -74,8 +81,11 @@ QuoteText(f) == IF f.q = "SQ" THEN (IF f.triple THEN "'''" ELSE "'") ELSE (IF f.
 
 \* an item may stand in a literal of this form: an expression must not contain the literal's own quote character
 \* (unless the literal is triple-quoted), and the named escape needs decoding
-Fits(it, f) == IF it.k = "lit" THEN ~(f.raw /\ it.src = "\\N{BULLET}")
-               ELSE it.q = "-" \/ it.q # f.q \/ f.triple
+Fits(it, f) == IF it.k = "lit" THEN ~(f.raw /\ it.src = "\\N{BULLET}") /\ (IsBreak(it) => f.triple)
+               ELSE CASE it.q = "-" -> TRUE
+                      [] it.q \in {"SQ", "DQ"} -> it.q # f.q \/ f.triple
+                      [] it.q = "SQ3" -> f.q # "SQ"            \* a triple-quoted string of the literal's own quote kind never fits
+                      [] it.q = "DQ3" -> f.q # "DQ"
 
 (* ---------------------------------------------------------------- the reference decomposition *)
 ConvCode(it) == IF it.conv # "" THEN it.conv ELSE IF it.eq /\ ~it.spec.has THEN "r" ELSE ""
@@ -114,7 +124,10 @@ Firsts == { [src |-> <<>>, parts |-> <<>>], [src |-> <<Seg("text", "'p{q}' ")>>,
 
 (* ---------------------------------------------------------------- machine *)
 Init == body = <<>> /\ done = FALSE
-Grow == ~done /\ Len(body) < MaxItems /\ \E it \in Items : body' = Append(body, it) /\ UNCHANGED done
+\* (a CR item directly followed by an LF item would be the CR LF item)
+Grow == ~done /\ Len(body) < MaxItems /\ \E it \in Items :
+           /\ ~(body # <<>> /\ body[Len(body)].k = "lit" /\ body[Len(body)].src = "\r" /\ it.k = "lit" /\ it.src = "\n")
+           /\ body' = Append(body, it) /\ UNCHANGED done
 Stop == ~done /\ done' = TRUE /\ UNCHANGED body
 Next == Grow \/ Stop
 Spec == Init /\ [][Next]_vars
